@@ -3,6 +3,7 @@ package security
 import (
 	"fmt"
 	"regexp"
+	"sort"
 )
 
 // Severity represents the severity level of a security finding.
@@ -79,15 +80,42 @@ func (s *Scanner) Scan(sql string) []Finding {
 	for _, r := range s.rules {
 		findings = append(findings, r.Check(sql)...)
 	}
-	// Compute line/column for each finding
+	// Compute line/column for each finding.  The table of line starts is built once, so
+	// that n findings cost O(len(sql) + n log n) instead of one scan of the text per finding.
+	var lineStarts []int
 	for i := range findings {
 		if findings[i].Position >= 0 && findings[i].Line == 0 {
-			line, col := posToLineCol(sql, findings[i].Position)
-			findings[i].Line = line
-			findings[i].Column = col
+			if lineStarts == nil {
+				lineStarts = lineStartOffsets(sql)
+			}
+			findings[i].Line, findings[i].Column = lineColAt(lineStarts, len(sql), findings[i].Position)
 		}
 	}
 	return findings
+}
+
+// lineStartOffsets returns the byte offsets at which the lines of sql start (the first is 0).
+func lineStartOffsets(sql string) []int {
+	starts := []int{0}
+	for i := 0; i < len(sql); i++ {
+		if sql[i] == '\n' {
+			starts = append(starts, i+1)
+		}
+	}
+	return starts
+}
+
+// lineColAt gives the same answer as posToLineCol(sql, pos) from the table of line starts.
+func lineColAt(lineStarts []int, size, pos int) (int, int) {
+	if pos > size {
+		pos = size
+	}
+	// the line containing pos is the last one that starts at or before pos
+	i := sort.Search(len(lineStarts), func(i int) bool { return lineStarts[i] > pos }) - 1
+	if i < 0 {
+		return 1, 1
+	}
+	return i + 1, pos - lineStarts[i] + 1
 }
 
 // Rules returns the registered rules (for introspection).
